@@ -378,6 +378,15 @@ theorem relaxation_generated (e : Env K) (hx : e.ops = fieldOps stepK heurK)
         relax e u st off = relaxed st u (u.1 + off.1, u.2 + off.2) g f) :=
   relax_generated e stepK heurK hx stepK_eq heurK_eq dataV bars hc u off st
 
+/-- between the pop and the neighbour loop the popped cell leaves the open list and enters the closed
+    list: the generated statements are `close` -/
+theorem pop_bookkeeping_generated (st : St K) (u : Cell) :
+    let s' := popBody.exec (fun _ _ _ => none) (fun _ => [])
+      ⟨XrsVerif.envOf [("open@u", b2n (st.isOpen u)), ("closed@u", b2n (st.isClosed u))], none, false, none⟩
+    s'.env "open@u" = (b2n ((close st u).isOpen u) : NV K) ∧ s'.env "closed@u" = b2n ((close st u).isClosed u) ∧
+    s'.failed = none ∧ s'.halted = false :=
+  pop_generated st u
+
 /-- **`_min_cost_pixel_id` is `minCostOpen`**: the statements before the scan set `(NONE, NONE)` and the
     sentinel `(height + width)²`, the loops run row-major, and one iteration of the scan is `minStep`
     (an open cell with a strictly smaller cost replaces the running minimum) -/
